@@ -141,8 +141,9 @@ def query(res, ae, watch, g, name, root, mode, rng, oracle_cache, ctx):
                         terms_want=want.nterms(), ctx=ctx)
             return False
     else:
-        phi = rng.choice([0.0, 1.0, 0.5, rng.random(), rng.random()])
-        us = {v: rng.choice([0.0, 1.0, rng.random(), rng.random()]) for v in nodes}
+        phi = rng.choice([0.0, 1.0, 0.5, rng.random(), rng.random(), 2.0, -0.5, 0.25])
+        # "all real phi and u": include values where a shortcut could branch (0, 1, 2, -1, and phi*u == 1 exactly)
+        us = {v: rng.choice([0.0, 1.0, rng.random(), rng.random(), 2.0, -1.0, (1.0 / phi if phi else 1.0)]) for v in nodes}
         for v in nodes:
             H.nodes[v]["u"] = us[v]
         got = watch.around(lambda: sut("automated_equation(float)", ae.automated_equation, H, phi, root))
@@ -152,7 +153,8 @@ def query(res, ae, watch, g, name, root, mode, rng, oracle_cache, ctx):
         counts, m = oracle_cache[key]
         want = percolation_value(counts, m, root, phi, us)
         res.count("float_checks")
-        if not (abs(float(got) - want) <= 1e-12 * max(1.0, abs(want))):
+        scale = max(1.0, abs(want), max(abs(x) for x in us.values()) ** len(nodes))
+        if not (abs(float(got) - want) <= 1e-11 * scale):
             res.violate("automated-equation-differs-from-expectation(float)", root=root, phi=phi, u=us, got=float(got), want=want, ctx=ctx)
             return False
     return True
